@@ -560,11 +560,90 @@ def rule_stride_formula(prog, fixture=False):
     return r
 
 
+# ---------------------------------------------------------------- R-C04-7
+def rule_every_slot_visited(prog, fixture=False):
+    r = RuleResult("R-C04-7", "every entry of the MMB table is examined: the loops around the FileView construction "
+                   "run to constant bounds - their conditions read nothing that the loop body assigns (beyond the "
+                   "counter), and nothing breaks or returns out of them - so a slot is attached wherever its own "
+                   "entry says so, whatever the entries before it hold", floor=0 if fixture else 2)
+    for fn in prog.functions.values():
+        if not (fn.qn.endswith("MmbFile::MmbFile") or (fixture and "mmb" in fn.name.lower())):
+            continue
+        views = [n for n in fn.walk() if n.get("k") in ("CXXConstructExpr", "CXXTemporaryObjectExpr") and
+                 notpl(n.get("cls") or "").endswith("FileView")]
+        for v in views[:1]:
+            loops = [a for a in fn.ancestors(v) if a.get("k") in ("ForStmt", "WhileStmt", "DoStmt", "CXXForRangeStmt")]
+            for depth, lp in enumerate(loops):
+                key = "%s::%s::table-loop#%d" % (fn.relfile(), fn.qn, depth + 1)
+                if lp["k"] == "CXXForRangeStmt":
+                    r.add(key, fn.loc(lp), True, "range-for")
+                    continue
+                body = lp["c"][lp["parts"]["body"]]
+                written = {}
+                for x in walk(body):
+                    for d_, _ in flow.written_decls(x):
+                        written[d_] = x
+                    if x.get("k") == "UnaryOperator" and x.get("op") in ("++", "--"):
+                        d_ = flow.lvalue_root(x["c"][0])
+                        if d_ is not None:
+                            written[d_] = x
+                cond = lp["c"][lp["parts"]["cond"]] if "cond" in lp.get("parts", {}) else None
+                problem = None
+                for x in walk(cond) if cond is not None else []:
+                    if x.get("k") == "DeclRefExpr" and x.get("d") in written:
+                        problem = "the loop condition reads `%s`, which the body sets (%s): the scan of the table can stop " \
+                                  "before its end, and the slots behind that point are never attached" % (x.get("n"), fn.loc(written[x["d"]]))
+                # exits from the loop body that are not inside a nested loop or switch
+                for x in walk(body):
+                    if x.get("k") in ("BreakStmt", "ReturnStmt", "GotoStmt"):
+                        inner = False
+                        for a in fn.ancestors(x):
+                            if a is lp:
+                                break
+                            if a.get("k") in ("ForStmt", "WhileStmt", "DoStmt", "CXXForRangeStmt") or \
+                                    (a.get("k") == "SwitchStmt" and x.get("k") == "BreakStmt"):
+                                inner = True
+                                break
+                        if not inner and not (x.get("k") == "BreakStmt" and any(a.get("k") == "SwitchStmt" for a in fn.ancestors(x)
+                                                                                 if any(y is a for y in walk(body)))):
+                            problem = problem or "%s: `%s` leaves the table loop early" % (fn.loc(x), x.get("k"))
+                r.add(key, fn.loc(lp), problem is None, "constant bound, no early exit" if problem is None else problem)
+    return r
+
+
+# ---------------------------------------------------------------- R-C04-8
+NUMBER_PARSERS = {"stol": 2, "stoi": 2, "stoul": 2, "stoll": 2, "stoull": 2, "strtol": 2, "strtoul": 2, "strtoll": 2, "strtoull": 2}
+
+
+def rule_decimal_arguments(prog, fixture=False):
+    r = RuleResult("R-C04-8", "drive, track and sector numbers on the command line are read in base 10: every "
+                   "strtol/stol-family call passes the constant base 10 (base 0 would read a zero-padded `010` as "
+                   "octal 8 and address another sector)", floor=0 if fixture else 2)
+    for fn in prog.functions.values():
+        for n in fn.walk():
+            if n.get("k") != "CallExpr":
+                continue
+            base = notpl(n.get("q") or "").split("::")[-1]
+            if base not in NUMBER_PARSERS:
+                continue
+            a = call_args(n)
+            bi = NUMBER_PARSERS[base]
+            b = folded(a[bi]) if len(a) > bi else None
+            if len(a) <= bi:
+                dflt = [x for x in n.get("c", []) if (strip(x) or {}).get("k") == "CXXDefaultArgExpr"]
+                b = 10 if dflt or base.startswith("sto") else None
+            key = "%s::%s::%s" % (fn.relfile(), fn.qn, base)
+            r.add(key, fn.loc(n), b == 10, "base 10" if b == 10 else
+                  "%s is called with base %s: numbers are not read as plain decimal" % (base, b if b is not None else "?"))
+    return r
+
+
 def run(ctx):
     prog = ctx.prog("dfs", "N")
     root = ctx.root or facts.REPO
     return [rule_fileview_bound(prog), rule_short_block(prog), rule_mmb_table(prog, root), rule_slot_position(prog),
-            rule_view_shapes(prog), rule_stride_formula(prog)]
+            rule_view_shapes(prog), rule_stride_formula(prog), rule_every_slot_visited(prog),
+            rule_decimal_arguments(prog)]
 
 
 SELFTESTS = []
